@@ -328,8 +328,17 @@ type LexResult struct {
 // Lex reads every token of lexer.New(input, capacity); the watchdog turns a lexer that does not
 // finish into an observation instead of a hung driver.
 func Lex(input string, capacity int, watchdog time.Duration) LexResult {
-	ch := lexer.New(input, capacity)
+	// lexer.New itself is part of the code under test: a New that never returns is a Timeout, not a hung driver
+	chc := make(chan (<-chan lexer.Token), 1)
+	go func() { chc <- lexer.New(input, capacity) }()
+	var ch <-chan lexer.Token
 	var r LexResult
+	select {
+	case ch = <-chc:
+	case <-time.After(watchdog):
+		r.Timeout = true
+		return r
+	}
 	var timer *time.Timer
 	for {
 		select {
